@@ -77,3 +77,54 @@ M("c06-validation-dropped", "C06", ("_abnf", "            and not validate_utf8(
 M("c06-validate-last-fragment-only", "C06", ("_abnf", "        frame.data = data[1]\n        if (", "        last = frame.data\n        frame.data = data[1]\n        if (", ), expect="silent")
 M("c06-validate-wrong-value", "C06", [("_abnf", "        frame.data = data[1]\n        if (", "        last = frame.data\n        frame.data = data[1]\n        if ("), ("_abnf", "            and not validate_utf8(frame.data)\n        ):", "            and not validate_utf8(last)\n        ):")], ["R-C06-3"])
 M("c06-wrong-exception", "C06", ("_abnf", '            raise WebSocketPayloadException(f"cannot decode: {repr(frame.data)}")', '            raise ValueError(f"cannot decode: {repr(frame.data)}")'), ["R-C06-5"])
+
+# ------------------------------------------------------------------ C02
+M("c02-fin-shift-6", "C02", ("_abnf", "fin = b1 >> 7 & 1", "fin = b1 >> 6 & 1"), ["R-C02-1"])
+M("c02-opcode-mask-7", "C02", ("_abnf", "opcode = b1 & 0xF", "opcode = b1 & 0x7"), ["R-C02-1"])
+M("c02-hasmask-from-b1", "C02", ("_abnf", "has_mask = b2 >> 7 & 1", "has_mask = b1 >> 7 & 1"), ["R-C02-1"])
+M("c02-lenbits-0x3f", "C02", ("_abnf", "length_bits = b2 & 0x7F\n\n", "length_bits = b2 & 0x3F\n\n"), ["R-C02-1", "R-C02-2", "R-C02-6"])
+M("c02-7e-7f-swapped", "C02", [("_abnf", "        if length_bits == 0x7E:\n            v = self.recv_strict(2)", "        if length_bits == 0x7F:\n            v = self.recv_strict(2)"),
+                                ("_abnf", "        elif length_bits == 0x7F:\n            v = self.recv_strict(8)", "        elif length_bits == 0x7E:\n            v = self.recv_strict(8)")], ["R-C02-2"])
+M("c02-little-endian-H", "C02", ("_abnf", 'self.length = struct.unpack("!H", v)[0]', 'self.length = struct.unpack("<H", v)[0]'), ["R-C02-2"])
+M("c02-read4-for-Q", "C02", ("_abnf", "            v = self.recv_strict(8)\n", "            v = self.recv_strict(4)\n"), ["R-C02-2"])
+M("c02-mask-index-4", "C02", ("_abnf", "_HEADER_MASK_INDEX = 5", "_HEADER_MASK_INDEX = 4"), ["R-C02-2", "R-C02-6"])
+M("c02-length-index-5", "C02", ("_abnf", "_HEADER_LENGTH_INDEX = 6", "_HEADER_LENGTH_INDEX = 5"), ["R-C02-2", "R-C02-6"])
+M("c02-header-order", "C02", ("_abnf", "self.header = (fin, rsv1, rsv2, rsv3, opcode, has_mask, length_bits)", "self.header = (rsv1, fin, rsv2, rsv3, opcode, has_mask, length_bits)"), ["R-C02-1"])
+M("c02-abnf-arg-order", "C02", ("_abnf", "frame = ABNF(fin, rsv1, rsv2, rsv3, opcode, has_mask, payload)", "frame = ABNF(fin, rsv2, rsv1, rsv3, opcode, has_mask, payload)"), ["R-C02-1"])
+M("c02-remainder-off-by-one", "C02", ("_abnf", "self.recv_buffer = [unified[bufsize:]]", "self.recv_buffer = [unified[bufsize + 1:]]"), ["R-C02-5"])
+M("c02-result-off-by-one", "C02", ("_abnf", "return unified[:bufsize]", "return unified[:bufsize + 1]"), ["R-C02-5"])
+M("c02-request-uncapped", "C02", ("_abnf", "bytes_ = self.recv(min(16384, shortage))", "bytes_ = self.recv(16384)"), ["R-C02-5"])
+M("c02-unconditional-unmask", "C02", ("_abnf", "            if has_mask:\n                payload = ABNF.mask(mask_value, payload)", "            if True:\n                payload = ABNF.mask(mask_value, payload)"), ["R-C02-2"])
+M("c02-never-unmask", "C02", ("_abnf", "            if has_mask:\n                payload = ABNF.mask(mask_value, payload)", "            if False:\n                payload = ABNF.mask(mask_value, payload)"), ["R-C02-2"])
+M("c02-mask-args-swapped", "C02", ("_abnf", "payload = ABNF.mask(mask_value, payload)", "payload = ABNF.mask(payload, mask_value)"), ["R-C02-2"])
+M("c02-payload-len-plus-1", "C02", ("_abnf", "payload = self.recv_strict(length)", "payload = self.recv_strict(length + 1)"), ["R-C02-2"])
+M("c02-spec-shift-then-mask", "C02", ("_abnf", "rsv1 = b1 >> 6 & 1", "rsv1 = (b1 & 0x40) >> 6"), expect="silent")
+M("c02-spec-recv-cap-8192", "C02", ("_abnf", "bytes_ = self.recv(min(16384, shortage))", "bytes_ = self.recv(min(8192, shortage))"), expect="silent")
+
+# ------------------------------------------------------------------ C07
+M("c07-pong-empty", "C07", ("_core", "                    self.pong(frame.data)", '                    self.pong(b"")'), ["R-C07-1"])
+M("c07-pong-only-if-not-reported", "C07", ("_core", "                if len(frame.data) < 126:\n                    self.pong(frame.data)", "                if len(frame.data) < 126:\n                    if not control_frame:\n                        self.pong(frame.data)"), ["R-C07-1", "R-C07-2"])
+M("c07-pong-after-return", "C07", ("_core", "                if len(frame.data) < 126:\n                    self.pong(frame.data)\n                else:\n                    raise WebSocketProtocolException(\"Ping message is too long\")\n                if control_frame:\n                    return frame.opcode, frame",
+                                   "                if len(frame.data) >= 126:\n                    raise WebSocketProtocolException(\"Ping message is too long\")\n                if control_frame:\n                    return frame.opcode, frame\n                self.pong(frame.data)"), ["R-C07-1", "R-C07-2"])
+M("c07-pong-on-pong", "C07", ("_core", "            elif frame.opcode == ABNF.OPCODE_PONG:\n                if control_frame:", "            elif frame.opcode == ABNF.OPCODE_PONG:\n                self.pong(frame.data)\n                if control_frame:"), ["R-C07-1"])
+M("c07-double-pong", "C07", ("_core", "                    self.pong(frame.data)\n", "                    self.pong(frame.data)\n                    self.pong(frame.data)\n"), ["R-C07-1"])
+M("c07-no-close-reply", "C07", ("_core", "                self.send_close()\n                return frame.opcode, frame", "                return frame.opcode, frame"), ["R-C07-1"])
+M("c07-pong-as-ping", "C07", ("_core", "        self.send(payload, ABNF.OPCODE_PONG)", "        self.send(payload, ABNF.OPCODE_PING)"), ["R-C07-3"])
+M("c07-pong-truncated", "C07", ("_core", "        self.send(payload, ABNF.OPCODE_PONG)", "        self.send(payload[:100], ABNF.OPCODE_PONG)"), ["R-C07-3"])
+M("c07-spec-threshold-le-125", "C07", ("_core", "                if len(frame.data) < 126:", "                if len(frame.data) <= 125:"), expect="silent")
+M("c07-spec-reorder-branches", "C07", ("_core", "            elif frame.opcode == ABNF.OPCODE_PONG:\n                if control_frame:\n                    return frame.opcode, frame", "            elif frame.opcode == ABNF.OPCODE_PONG and control_frame:\n                return frame.opcode, frame"), expect="silent")
+
+# ------------------------------------------------------------------ C04
+M("c04-prepend", "C04", ("_abnf", "            self.cont_data[1] += frame.data", "            self.cont_data[1] = frame.data + self.cont_data[1]"), ["R-C04-2"])
+M("c04-buffer-not-reset", "C04", ("_abnf", "        data = self.cont_data\n        self.cont_data = None\n", "        data = self.cont_data\n"), ["R-C04-2", "R-C04-3"])
+M("c04-add-on-ping", "C04", ("_core", "            elif frame.opcode == ABNF.OPCODE_PING:\n                if len(frame.data) < 126:", "            elif frame.opcode == ABNF.OPCODE_PING:\n                self.cont_frame.add(frame)\n                if len(frame.data) < 126:"), ["R-C04-1"])
+M("c04-recving-not-cleared", "C04", ("_abnf", "        if frame.fin:\n            self.recving_frames = None", "        if frame.fin and frame.opcode != ABNF.OPCODE_CONT:\n            self.recving_frames = None"), ["R-C04-2", "R-C04-3"])
+M("c04-is-fire-ignores-fin", "C04", ("_abnf", "        return frame.fin or self.fire_cont_frame", "        return self.fire_cont_frame"), ["R-C04-2"])
+M("c04-is-fire-always", "C04", ("_abnf", "        return frame.fin or self.fire_cont_frame", "        return True"), ["R-C04-2"])
+M("c04-opcode-overwritten", "C04", ("_abnf", "        if self.cont_data:\n            self.cont_data[1] += frame.data", "        if self.cont_data:\n            self.cont_data[0] = frame.opcode\n            self.cont_data[1] += frame.data"), ["R-C04-2"])
+M("c04-extract-returns-frame-opcode", "C04", ("_abnf", "        return data[0], frame\n", "        return frame.opcode, frame\n"), ["R-C04-2"])
+M("c04-drop-fragment", "C04", ("_abnf", "        if self.cont_data:\n            self.cont_data[1] += frame.data", "        if self.cont_data:\n            self.cont_data[1] = frame.data"), ["R-C04-2"])
+M("c04-recv-latin1", "C04", ("_core", '                return data_received.decode("utf-8")', '                return data_received.decode("latin-1")'), ["R-C04-5"])
+M("c04-recv-binary-decoded", "C04", ("_core", "            data_binary: bytes = data\n            return data_binary", "            data_binary: bytes = data\n            return data_binary.decode('utf-8')"), ["R-C04-5"])
+M("c04-close-resets-buffer", "C04", ("_core", "                self.send_close()\n                return frame.opcode, frame", "                self.send_close()\n                self.cont_frame.cont_data = None\n                return frame.opcode, frame"), ["R-C04-1"])
+M("c04-spec-add-rewritten", "C04", ("_abnf", "            self.cont_data[1] += frame.data", "            self.cont_data[1] = self.cont_data[1] + frame.data"), expect="silent")
